@@ -225,12 +225,12 @@ fn lockstep_bfs<D: ByteDev>(ctx: &mut Ctx, label: &str) -> (usize, u64) {
 
 // ---- Engine B: stream tree in lock-step with R-AUTO -----------------------------------------
 
-struct TreeBad {
-    key: String,
-    text: String,
-    path: Vec<u8>,
-    expected: String,
-    observed: String,
+pub struct TreeBad {
+    pub key: String,
+    pub text: String,
+    pub path: Vec<u8>,
+    pub expected: String,
+    pub observed: String,
 }
 
 /// One tree level. `only` restricts this level to a single byte (used to split the work over the
@@ -274,6 +274,29 @@ fn tree_rec<D: ByteDev>(d: &D, c: RCtx, depth: usize, max: usize, only: Option<u
             path.pop();
         }
     }
+}
+
+/// byte streams up to `max` with every call guarded: returns (positions checked, streams that panic)
+pub fn panic_streams<D: ByteDev>(max: usize) -> (u64, Vec<(Vec<u8>, String)>) {
+    let results = par_chunks(256, |first| {
+        let mut n = 0u64;
+        let mut nbad = 0u64;
+        let mut bads = vec![];
+        let mut path = vec![];
+        tree_rec(&D::fresh(), CTX2_INIT, 0, max, Some(first as u8), true, &mut path, &mut n, &mut bads, &mut nbad);
+        (n, bads)
+    });
+    let mut total = 0;
+    let mut out = vec![];
+    for (n, bads) in results {
+        total += n;
+        for b in bads {
+            if b.observed.starts_with("PANIC") {
+                out.push((b.path, b.observed));
+            }
+        }
+    }
+    (total, out)
 }
 
 /// all byte streams of length <= max, depth-first with prefix sharing, split over the first byte
